@@ -11,6 +11,12 @@ code -> spec : after every call the harness projects the real object (identity l
                classified sampler of every quantiser and combiner); TLC (NasControlTrace) validates every step
                with the same operators as the state machine.  Seeded random call sequences (multi-option
                updates included) on further models are validated the same way.
+per-layer    : the control state is PER OBJECT.  Heterogeneous configurations of NasControlMC (several layers /
+               two option blocks, per-layer calls layer.train_<f> / layer.discrete_cost / quantiser.
+               update_softmax_options / combiner.softmax_temperature, hard_softmax, train_selection, and per-block
+               constructor options of the SuperNetModules) are explored and replayed edge by edge as well: a
+               model-level call must be a POINTWISE update (named thing everywhere, everything else as it was in
+               that layer).
 """
 from __future__ import annotations
 
@@ -19,6 +25,7 @@ import random
 import re
 import tempfile
 from collections import deque
+from concurrent.futures import ThreadPoolExecutor
 from typing import Any, Dict, List, Tuple
 
 from ..core import Run, canon, use_repo
@@ -28,6 +35,13 @@ from ..tlc import MachineryError
 FLAG_ATTR = {"features": "train_features", "rf": "train_rf", "dilation": "train_dilation", "dc": "discrete_cost"}
 TRAIN_CALL = {"nas": "train_nas_only", "net": "train_net_only", "both": "train_net_and_nas"}
 NO_MC = {"none": True}
+# abstract layers / blocks of the heterogeneous NasControlMC configurations -> modules of the harness' models
+HMAP = {
+    ("pit", "tcn"): {"layers": {"A": "seed.c3", "B": "seed.c0", "F1": "seed.c2", "F2": "seed.fc"}, "blocks": {}},
+    ("mps", "channel"): {"layers": {}, "blocks": {"1": "seed.c2.w_mps_quantizer"}},
+    ("mps", "layer"): {"layers": {}, "blocks": {"1": "seed.c2.w_mps_quantizer"}},
+    ("sn", "std"): {"layers": {}, "blocks": {"1": "seed.b1.sn_combiner", "2": "seed.b2.sn_combiner"}},
+}
 
 
 # ----------------------------------------------------------------------------------------------
@@ -116,14 +130,16 @@ def _env():
 
         def __init__(self, gumbel, hard):
             super().__init__()
+            gumbel = list(gumbel) if isinstance(gumbel, (list, tuple)) else [gumbel, gumbel]
+            hard = list(hard) if isinstance(hard, (list, tuple)) else [hard, hard]
             self.b1 = SuperNetModule([
                 nn.Conv2d(3, 3, 3, padding='same'),
                 nn.Sequential(nn.Conv2d(3, 3, 3, padding='same'), nn.ReLU(), nn.Conv2d(3, 3, 1)),
-                nn.Identity()], gumbel_softmax=gumbel, hard_softmax=hard)
+                nn.Identity()], gumbel_softmax=gumbel[0], hard_softmax=hard[0])
             self.mid = nn.Conv2d(3, 4, 3, padding=1)
             self.b2 = SuperNetModule([
                 nn.Conv2d(4, 4, 3, padding='same'),
-                nn.Conv2d(4, 4, 5, padding='same')], gumbel_softmax=gumbel, hard_softmax=hard)
+                nn.Conv2d(4, 4, 5, padding='same')], gumbel_softmax=gumbel[1], hard_softmax=hard[1])
             self.fc = nn.Linear(4 * 4 * 4, 2)
 
         def forward(self, x):
@@ -183,15 +199,62 @@ def _env():
     class Projector:
         """Structural view of one wrapper, built WITHOUT the nas/net reporting functions under test."""
 
-        def __init__(self, kind, model, x):
+        def __init__(self, kind, model, x, hmap=None):
             self.kind, self.model, self.x = kind, model, x
+            self.hmap = hmap                   # None: class-level machine; else abstract layer/block -> module name
             self.ids: Dict[int, int] = {}
             self.keep: List[Any] = []          # keeps every tensor we gave an id to alive (no id() reuse)
-            self.slots: List[Tuple[Any, str, str]] = []   # (owner module, attribute, class)
+            # (owner module, attribute, class, owning layers (1-based), owning quantiser (1-based, 0 none))
+            self.slots: List[Tuple[Any, str, str, List[int], int]] = []
+            self.layers: List[Tuple[str, Any]] = []       # PIT layers (name, module)
             self.quant: List[Any] = []
+            self.qnames: List[str] = []
             self.live: List[bool] = []
             self._classify()
             self._liveness()
+            self._mc_names()
+
+        def layer_index(self, name: str) -> int:
+            for i, (n, _) in enumerate(self.layers):
+                if n == name:
+                    return i + 1
+            raise MachineryError(f"C11: no PIT layer {name}")
+
+        def quant_index(self, name: str) -> int:
+            if name not in self.qnames:
+                raise MachineryError(f"C11: no quantiser/combiner {name}")
+            return self.qnames.index(name) + 1
+
+        def layer_flags(self) -> List[Tuple[str, List[str]]]:
+            """per-layer switches that exist: (layer name, [flag])"""
+            return [(n, [f for f, a in FLAG_ATTR.items() if hasattr(l, a)]) for n, l in self.layers]
+
+        def _mc_names(self):
+            """Which object / block of the NasControlMC configuration being replayed a slot / quantiser realises."""
+            self.mo, self.mb = [], []
+            hm = self.hmap
+            lay = {L: self.layer_index(n) for L, n in (hm["layers"].items() if hm else [])}
+            blk = {int(b): self.quant_index(n) for b, n in (hm["blocks"].items() if hm else [])}
+            for _, _, cls, own, q in self.slots:
+                if hm is None or self.kind == "mps":
+                    self.mo.append(cls)
+                elif cls in ("w", "bn", "bnfold"):
+                    self.mo.append("w")
+                elif self.kind == "sn":
+                    self.mo.append(f"snalpha_{q}" if cls == "snalpha" else "")
+                else:
+                    names = [f"{cls}_{L}" for L, i in sorted(lay.items()) if i in own]
+                    self.mo.append(names[0] if names else "")
+            for k, live in enumerate(self.live):
+                if not live:
+                    self.mb.append(0)
+                elif hm is None:
+                    self.mb.append(1)
+                elif self.kind == "mps":
+                    self.mb.append(1 if blk.get(1) == k + 1 else 2)
+                else:
+                    inv = {v: b for b, v in blk.items()}
+                    self.mb.append(inv.get(k + 1, 0))
 
         def oid(self, t) -> int:
             k = id(t)
@@ -204,28 +267,36 @@ def _env():
             m = self.model
             seen = set()
 
-            def add(owner, attr, cls):
+            def add(owner, attr, cls, own=(), q=0):
                 t = getattr(owner, attr)
                 if id(t) in seen:
                     return
                 seen.add(id(t))
-                self.slots.append((owner, attr, cls))
+                self.slots.append((owner, attr, cls, sorted(own), q))
 
             mods = list(m.named_modules())
             if self.kind == "pit":
-                owners: Dict[int, int] = {}
+                self.layers = [(n, l) for n, l in mods if isinstance(l, PITModule) and hasattr(l, "out_features_masker")]
+                owners: Dict[int, List[int]] = {}
+                for i, (_, l) in enumerate(self.layers):
+                    for a in ("out_features_masker", "timestep_masker", "dilation_masker"):
+                        mk = getattr(l, a, None)
+                        if mk is not None:
+                            owners.setdefault(id(mk), []).append(i + 1)
                 for _, l in mods:
-                    if isinstance(l, PITModule) and hasattr(l, "out_features_masker"):
-                        owners[id(l.out_features_masker)] = owners.get(id(l.out_features_masker), 0) + 1
-                for _, l in mods:
+                    own = owners.get(id(l), [])
                     if isinstance(l, PITFeaturesMasker):
                         cls = "alphaF" if isinstance(l, PITFrozenFeaturesMasker) else \
-                            ("alphaS" if owners.get(id(l), 0) > 1 else "alpha")
-                        add(l, "alpha", cls)
+                            ("alphaS" if len(own) > 1 else "alpha")
+                        add(l, "alpha", cls, own)
                     elif isinstance(l, PITTimestepMasker):
-                        add(l, "beta", "betaF" if isinstance(l, PITFrozenTimestepMasker) else "beta")
+                        add(l, "beta", "betaF" if isinstance(l, PITFrozenTimestepMasker) else "beta", own)
                     elif isinstance(l, PITDilationMasker):
-                        add(l, "gamma", "gammaF" if isinstance(l, PITFrozenDilationMasker) else "gamma")
+                        add(l, "gamma", "gammaF" if isinstance(l, PITFrozenDilationMasker) else "gamma", own)
+                # the discrete_cost switch of every layer is an object of its own (class "dc")
+                for i, (_, l) in enumerate(self.layers):
+                    if hasattr(l, "discrete_cost"):
+                        self.slots.append((l, "discrete_cost", "dc", [i + 1], 0))
             elif self.kind == "mps":
                 owners = {}
                 for _, l in mods:
@@ -234,21 +305,24 @@ def _env():
                             q = getattr(l, a, None)
                             if isinstance(q, MPSBaseQtz):
                                 owners[id(q)] = owners.get(id(q), 0) + 1
-                for _, q in mods:
+                for qn, q in mods:
                     if isinstance(q, MPSBaseQtz):
                         self.quant.append(q)
+                        self.qnames.append(qn)
                         dummy = all(isinstance(f, DummyQuantizer) for f in q.qtz_funcs)
-                        add(q, "alpha", "qdummy" if dummy else ("qalphaS" if owners.get(id(q), 0) > 1 else "qalpha"))
+                        add(q, "alpha", "qdummy" if dummy else ("qalphaS" if owners.get(id(q), 0) > 1 else "qalpha"),
+                            (), len(self.quant))
                 qmods = [q for _, q in mods if isinstance(q, (MPSBaseQtz, MPSBiasQtz))]
                 for q in qmods:
                     for _, sub in q.named_modules():
                         for pn, _ in sub.named_parameters(recurse=False):
                             add(sub, pn, "qclip")
             else:
-                for _, c in mods:
+                for cn, c in mods:
                     if isinstance(c, SuperNetCombiner):
                         self.quant.append(c)
-                        add(c, "alpha", "snalpha")
+                        self.qnames.append(cn)
+                        add(c, "alpha", "snalpha", (), len(self.quant))
             # everything else that is an nn.Parameter: network weights
             folded = {id(l.bn) for _, l in mods if getattr(l, "fold_bn", False) and getattr(l, "bn", None) is not None}
             for _, l in mods:
@@ -307,28 +381,28 @@ def _env():
                 "net": [self.oid(p) for p in m.net_parameters()],
             }
             ps = []
-            for owner, attr, cls in self.slots:
+            for (owner, attr, cls, own, qi), mo in zip(self.slots, self.mo):
                 t = getattr(owner, attr)
+                if cls == "dc":     # a layer's discrete_cost switch: "rg" carries its value
+                    ps.append({"id": self.oid(owner), "cls": cls, "par": False, "rg": bool(t), "grad": "none",
+                               "own": own, "q": qi, "mo": mo})
+                    continue
                 if t.grad is None:
                     g = "none"
                 else:
                     g = "zero" if bool((t.grad == 0).all()) else "nz"
                 ps.append({"id": self.oid(t), "cls": cls, "par": isinstance(t, nn.Parameter),
-                           "rg": bool(t.requires_grad), "grad": g})
+                           "rg": bool(t.requires_grad), "grad": g, "own": own, "q": qi, "mo": mo})
             o["p"] = ps
             if self.kind == "pit":
                 o["flags"] = {f: bool(getattr(m, a)) for f, a in FLAG_ATTR.items()}
-                vals = {bool(l.discrete_cost) for _, l in m.named_modules()
-                        if isinstance(l, PITModule) and hasattr(l, "discrete_cost")}
-                o["ldc"] = "T" if vals == {True} else "F" if vals == {False} else "mixed"
             else:
                 o["flags"] = {f: True for f in FLAG_ATTR}
-                o["ldc"] = "-"
             qs = []
-            for q, live in zip(self.quant, self.live):
+            for q, live, mb in zip(self.quant, self.live, self.mb):
                 temp = q.temperature if self.kind == "mps" else q.softmax_temperature
                 qs.append({"temp": int(round(float(temp) * 1000)), "hard": bool(q.hard_softmax),
-                           "sampler": self.sampler(q), "live": bool(live)})
+                           "sampler": self.sampler(q), "live": bool(live), "mb": mb})
             o["q"] = qs
             # the projection itself must be complete: every nn.Parameter has a slot
             if {x["id"] for x in ps if x["par"]} != set(o["all"]):
@@ -336,14 +410,50 @@ def _env():
             return o
 
         def clear_grads(self):
-            for owner, attr, _ in self.slots:
-                getattr(owner, attr).grad = None
+            for owner, attr, cls, _, _ in self.slots:
+                if cls != "dc":
+                    getattr(owner, attr).grad = None
 
         # ------------------------------------------------------------ calls
+        def resolve(self, act: Dict[str, Any]) -> Dict[str, Any]:
+            """scenario call (layers / quantisers by module name) -> logged call (by index)"""
+            out = dict(act)
+            if act["a"] == "lflag":
+                out["l"] = self.layer_index(act["l"])
+            elif act["a"] in ("lupd", "lsel"):
+                out["b"] = self.quant_index(act["b"])
+            return out
+
         def apply(self, act: Dict[str, Any]):
+            """`act` is a resolved call"""
             m = self.model
             a = act["a"]
-            if a == "train":
+            if a == "lflag":
+                layer = self.layers[act["l"] - 1][1]
+                if not hasattr(layer, FLAG_ATTR[act["f"]]):
+                    raise MachineryError(f"C11: layer has no switch {act['f']}")
+                setattr(layer, FLAG_ATTR[act["f"]], bool(act["v"]))
+            elif a == "lsel":
+                self.quant[act["b"] - 1].train_selection = bool(act["v"])
+            elif a == "lupd":
+                q = self.quant[act["b"] - 1]
+                if self.kind == "mps":      # the quantiser's own update_softmax_options
+                    kw = {}
+                    if act["temp"] != 0:
+                        kw["temperature"] = act["temp"] / 1000.0
+                    if act["hard"] != 2:
+                        kw["hard"] = bool(act["hard"])
+                    if act["gumbel"] != 2:
+                        kw["gumbel"] = bool(act["gumbel"])
+                    if act["disable"] != 2:
+                        kw["disable_sampling"] = bool(act["disable"])
+                    q.update_softmax_options(**kw)
+                else:                       # the combiner's public attributes
+                    if act["temp"] != 0:
+                        q.softmax_temperature = act["temp"] / 1000.0
+                    if act["hard"] != 2:
+                        q.hard_softmax = bool(act["hard"])
+            elif a == "train":
                 getattr(m, TRAIN_CALL[act["g"]])()
             elif a == "flag":
                 setattr(m, FLAG_ATTR[act["f"]], bool(act["v"]))
@@ -383,11 +493,17 @@ def _env():
     def execute(sc: Dict[str, Any]) -> Dict[str, Any]:
         """Run one scenario {kind, variant, init, wseed, acts, mc?} on a fresh model; return the trace."""
         m, x = build(sc["kind"], sc["variant"], sc["init"], sc.get("wseed", 0))
-        pr = Projector(sc["kind"], m, x)
-        tr = {"kind": sc["kind"], "gum0": bool(sc["init"].get("gumbel", False)),
-              "dis0": bool(sc["init"].get("disable", False)), "init": dict(pr.observe(), bwd="-"), "ev": []}
+        pr = Projector(sc["kind"], m, x, HMAP[(sc["kind"], sc["variant"])] if sc.get("hetero") else None)
+        nq = len(pr.quant)
+        gum = sc["init"].get("gumbel", False)
+        gum0 = [bool(g) for g in gum] if isinstance(gum, (list, tuple)) else [bool(gum)] * nq
+        if len(gum0) != nq:
+            raise MachineryError("C11: per-block constructor options do not match the combiners")
+        tr = {"kind": sc["kind"], "gum0": gum0, "dis0": [bool(sc["init"].get("disable", False))] * nq,
+              "init": dict(pr.observe(), bwd="-"), "ev": []}
         mcs = sc.get("mc") or [NO_MC] * len(sc["acts"])
         for act, mc in zip(sc["acts"], mcs):
+            act = pr.resolve(act)
             status = pr.apply(act)
             o = pr.observe()
             o["bwd"] = status
@@ -395,29 +511,52 @@ def _env():
             pr.clear_grads()
         return tr
 
+    def meta(kind: str, variant: str) -> Dict[str, Any]:
+        """names of the per-layer switches / live quantisers of a model variant (for the random generator)"""
+        init = {"features": True, "rf": True, "dilation": True, "dc": False, "hard": False, "gumbel": False,
+                "disable": False}
+        m, x = build(kind, variant, init, 0)
+        pr = Projector(kind, m, x)
+        return {"layers": [(n, fl) for n, fl in pr.layer_flags() if fl],
+                "quants": [n for n, live in zip(pr.qnames, pr.live) if live]}
+
+    execute.meta = meta
     return execute
 
 
 # ----------------------------------------------------------------------------------------------
 # state graph -> covering walks
 # ----------------------------------------------------------------------------------------------
-def _parse_label(lab: str) -> Dict[str, Any]:
-    """Edge label of the dump -> call record of the trace format."""
+def _upd(a: str, o: str, v: int) -> Dict[str, Any]:
+    return {"a": a, "temp": v if o == "temp" else 0, "hard": v if o == "hard" else 2,
+            "gumbel": v if o == "gumbel" else 2, "disable": v if o == "disable" else 2}
+
+
+def _parse_label(lab: str, hmap=None) -> Dict[str, Any]:
+    """Edge label of the dump -> call of the scenario format (abstract layers / blocks mapped to module names)."""
     lab = lab.strip()
+    if lab == "FwdBwd":
+        return {"a": "fwdbwd"}
     m = re.match(r"^(\w+)\((.*)\)$", lab, re.S)
     if not m:
         raise MachineryError(f"edge label {lab!r}")
     name, args = m.group(1), tlc.parse_value("<<" + m.group(2) + ">>")
     if name == "Step":
         return dict(args[0])
+    if name == "Train":
+        return {"a": "train", "g": args[0]}
     if name == "SetFlag":
         return {"a": "flag", "f": args[0], "v": bool(args[1])}
+    if name == "LFlag":
+        return {"a": "lflag", "l": hmap["layers"][args[0]], "f": args[1], "v": bool(args[2])}
     if name == "Sel":
         return {"a": "sel", "v": bool(args[0])}
+    if name == "LSel":
+        return {"a": "lsel", "b": hmap["blocks"][str(args[0])], "v": bool(args[1])}
     if name == "Upd":
-        o, v = args
-        return {"a": "upd", "temp": v if o == "temp" else 0, "hard": v if o == "hard" else 2,
-                "gumbel": v if o == "gumbel" else 2, "disable": v if o == "disable" else 2}
+        return _upd("upd", args[0], args[1])
+    if name == "LUpd":
+        return dict(_upd("lupd", args[1], args[2]), b=hmap["blocks"][str(args[0])])
     raise MachineryError(f"edge label {lab!r}")
 
 
@@ -484,60 +623,143 @@ def _covering_walks(nodes, edges, init, maxlen: int, rng: random.Random):
     return walks
 
 
-def _mc_state(kind: str, st: Dict[str, Any]) -> Dict[str, Any]:
-    return {"rg": st["rg"], "flags": st["flags"], "opt": st["opt"]}
+def _mc_state(st: Dict[str, Any], hetero: bool) -> Dict[str, Any]:
+    mc = {"rg": st["rg"], "opt": st["opt"]}
+    if not hetero:
+        mc["flags"] = st["flags"]       # getter memory is part of the class-level machine only
+    return mc
 
 
-def _init_args(kind: str, st: Dict[str, Any]) -> Dict[str, Any]:
+def _init_args(kind: str, st: Dict[str, Any], hetero: bool) -> Dict[str, Any]:
+    """constructor arguments that produce the initial state `st`"""
     if kind == "pit":
-        return dict(st["flags"])
-    return {"hard": st["opt"]["hard"], "gumbel": st["opt"]["gumbel"], "disable": st["opt"]["disable"]}
+        if not hetero:
+            return dict(st["flags"])
+        rg = st["rg"]
+        return {"features": rg.get("alpha_A", True), "rf": rg.get("beta_A", True),
+                "dilation": rg.get("gamma_A", True), "dc": rg.get("dc_A", False)}
+    opt = st["opt"]
+    if kind == "sn" and hetero:         # options PER SuperNetModule
+        return {"hard": [o["hard"] for o in opt], "gumbel": [o["gumbel"] for o in opt], "disable": False}
+    return {"hard": opt[0]["hard"], "gumbel": opt[0]["gumbel"], "disable": opt[0]["disable"]}
 
 
 # ----------------------------------------------------------------------------------------------
 # random call sequences (code -> spec, outside the exhaustive bounds)
 # ----------------------------------------------------------------------------------------------
-def _random_scenario(kind: str, variant: str, rng: random.Random, length: int) -> Dict[str, Any]:
+TEMPS = [125, 250, 500, 1000, 1500, 3000, 8000]
+
+
+def _random_scenario(kind: str, variant: str, rng: random.Random, length: int, meta: Dict[str, Any]) -> Dict[str, Any]:
     if kind == "pit":
         init = {f: rng.random() < 0.6 for f in FLAG_ATTR}
     elif kind == "mps":
         init = {"hard": rng.random() < 0.3, "gumbel": rng.random() < 0.4, "disable": rng.random() < 0.2}
-    else:
-        init = {"hard": rng.random() < 0.3, "gumbel": rng.random() < 0.5, "disable": False}
+    else:   # per-block constructor options
+        init = {"hard": [rng.random() < 0.4, rng.random() < 0.4], "gumbel": [rng.random() < 0.5, rng.random() < 0.5],
+                "disable": False}
     acts = []
     for _ in range(length):
         u = rng.random()
-        if u < 0.25:
+        if u < 0.2:
             acts.append({"a": "train", "g": rng.choice(["nas", "net", "both"])})
-        elif u < 0.45:
+        elif u < 0.35:
             acts.append({"a": "fwdbwd"})
         elif kind == "pit":
-            acts.append({"a": "flag", "f": rng.choice(list(FLAG_ATTR)), "v": rng.random() < 0.5})
-        elif kind == "sn" and u < 0.6:
+            if u < 0.6 or not meta["layers"]:
+                acts.append({"a": "flag", "f": rng.choice(list(FLAG_ATTR)), "v": rng.random() < 0.5})
+            else:       # the switch of ONE layer
+                ln, fl = rng.choice(meta["layers"])
+                acts.append({"a": "lflag", "l": ln, "f": rng.choice(fl), "v": rng.random() < 0.5})
+        elif kind == "sn" and u < 0.45:
             acts.append({"a": "sel", "v": rng.random() < 0.5})
+        elif kind == "sn" and u < 0.55:
+            acts.append({"a": "lsel", "b": rng.choice(meta["quants"]), "v": rng.random() < 0.5})
         else:
-            # one to three options at once, any temperature on a x1000 grid
+            # one to three options at once, any temperature on a x1000 grid; model-level or ONE quantiser/combiner
             names = ["temp", "hard"] + (["gumbel", "disable"] if kind == "mps" else [])
             chosen = rng.sample(names, rng.choice([1, 1, 1, 2, 3]) if kind == "mps" else rng.choice([1, 1, 2]))
             a = {"a": "upd", "temp": 0, "hard": 2, "gumbel": 2, "disable": 2}
             for nme in chosen:
-                a[nme] = rng.choice([125, 250, 500, 1000, 1500, 3000, 8000]) if nme == "temp" else rng.randint(0, 1)
+                a[nme] = rng.choice(TEMPS) if nme == "temp" else rng.randint(0, 1)
+            if rng.random() < 0.4 and meta["quants"]:
+                a["a"] = "lupd"
+                a["b"] = rng.choice(meta["quants"])
             acts.append(a)
-    return {"kind": kind, "variant": variant, "init": init, "wseed": rng.randint(0, 999), "acts": acts, "src": "random"}
+    return {"kind": kind, "variant": variant, "init": init, "wseed": rng.randint(0, 999), "acts": acts,
+            "hetero": False, "src": "random"}
+
+
+def _pairwise_probes(metas) -> List[Dict[str, Any]]:
+    """Deterministic family: make ONE switch / option heterogeneous (two layers / quantisers set to opposite values), then
+    issue ONE model-level call; for every heterogeneous switch x every model-level call x both orientations.  (The
+    thorough tier covers this by closure of the full heterogeneous machines; the quick tier explores the PIT machine
+    for two pairs of switches and the MPS machine without `disable`, so the cross pairs are probed here.)"""
+    out = []
+    la, lb = HMAP[("pit", "tcn")]["layers"]["A"], HMAP[("pit", "tcn")]["layers"]["B"]
+    zs = [{"a": "flag", "f": f, "v": v} for f in FLAG_ATTR for v in (False, True)] + \
+         [{"a": "train", "g": g} for g in ("nas", "net", "both")]
+    for x in FLAG_ATTR:
+        for orient in (False, True):
+            acts = []
+            for z in zs:
+                acts += [{"a": "lflag", "l": la, "f": x, "v": orient}, {"a": "lflag", "l": lb, "f": x, "v": not orient}, z]
+            out.append({"kind": "pit", "variant": "tcn", "wseed": 0, "acts": acts, "hetero": False, "src": "probe",
+                        "init": {"features": True, "rf": True, "dilation": True, "dc": False}})
+    q1 = HMAP[("mps", "channel")]["blocks"]["1"]
+    q2 = [n for n in metas[("mps", "channel")]["quants"] if n != q1][0]
+    vals = {"temp": (500, 2000), "hard": (0, 1), "gumbel": (0, 1), "disable": (0, 1)}
+    zs = [_upd("upd", o, v) for o in vals for v in vals[o]]
+    for x in vals:
+        for orient in (0, 1):
+            acts = []
+            for z in zs:
+                acts += [dict(_upd("lupd", x, vals[x][orient]), b=q1), dict(_upd("lupd", x, vals[x][1 - orient]), b=q2), z]
+            out.append({"kind": "mps", "variant": "channel", "wseed": 0, "acts": acts, "hetero": False, "src": "probe",
+                        "init": {"hard": False, "gumbel": False, "disable": False}})
+    return out
 
 
 # ----------------------------------------------------------------------------------------------
+PIT_PAIRINGS = [("frf", "dildc"), ("fdil", "rfdc"), ("fdc", "rfdil")]
+
+
+def _graph_configs(tier: str, seed: int):
+    """(kind, cfg, hetero, model variants, actions that must be covered)"""
+    q = tier == "quick"
+    sfx = "quick" if q else "thorough"
+    hom = {"pit": ["tcn"], "mps": ["layer", "channel"], "sn": ["std"]} if q else \
+          {"pit": ["tcn", "cnn2d", "tcn_foldbn"], "mps": ["layer", "channel", "channel0"], "sn": ["std"]}
+    out = [("pit", f"NasControlMC_pit_{sfx}", False, hom["pit"], ["SetFlag", "Train"]),
+           ("mps", f"NasControlMC_mps_{sfx}", False, hom["mps"], ["Upd", "Train"]),
+           ("sn", f"NasControlMC_sn_{sfx}", False, hom["sn"], ["Upd", "Sel", "Train"])]
+    if q:   # two pairs of switches per run; the three pairings rotate with the seed
+        out += [("pit", f"NasControlMC_pith_{n}_quick", True, ["tcn"], ["SetFlag", "LFlag", "Train"])
+                for n in PIT_PAIRINGS[seed % 3]]
+    else:
+        out += [("pit", "NasControlMC_pith_thorough", True, ["tcn"], ["SetFlag", "LFlag", "Train"])]
+    out += [("mps", f"NasControlMC_mpsh_{sfx}", True, ["channel"], ["Upd", "LUpd"]),
+            ("sn", f"NasControlMC_snh_opt_{sfx}", True, ["std"], ["Upd", "LUpd"]),
+            ("sn", f"NasControlMC_snh_ctl_{sfx}", True, ["std"], ["Sel", "LSel", "Train"])]
+    return out
+
+
 def run(tier: str, seed: int, replay=None) -> int:
     R = Run("C11", tier, seed, level="model_checking")
-    R.rule = ("scenario = (kind of model, model variant, constructor's control arguments, sequence of calls over "
-              "{train_nas_only, train_net_only, train_net_and_nas, train_features/rf/dilation := T/F, discrete_cost := T/F, "
-              "train_selection := T/F, update_softmax_options(one option), forward+backward of loss+cost}). The sequences are "
-              "walks from initial states that cover EVERY edge of the state graph TLC computes to closure for NasControlMC "
-              "(per kind), executed on real models; plus seeded random sequences (multi-option updates, other temperatures, "
-              "other models). Non-trivial = non-empty call history.")
+    R.rule = ("scenario = (kind of model, model variant, constructor's control arguments [per SuperNetModule for heterogeneous "
+              "SuperNets], sequence of calls over {train_nas_only, train_net_only, train_net_and_nas, train_features/rf/dilation := T/F, "
+              "discrete_cost := T/F, train_selection := T/F, update_softmax_options(one option), forward+backward of loss+cost} and "
+              "their per-layer forms {layer.train_<f> := v, layer.discrete_cost := v, quantiser.update_softmax_options(one option), "
+              "combiner.softmax_temperature / hard_softmax / train_selection := v}). The sequences are walks from initial states that "
+              "cover EVERY edge of every state graph TLC computes to closure for NasControlMC (class-level machine per kind; "
+              "heterogeneous per-layer / per-block machines per kind), executed on real models; plus seeded random sequences "
+              "(multi-option and per-layer updates, other temperatures, other models) and a deterministic family of pairwise "
+              "heterogeneity probes (one switch/option made heterogeneous, then one model-level call; all combinations). "
+              "Non-trivial = non-empty call history.")
     R.assumptions = [
         "a parameter's class (weight / fused-BN affine / free, shared or frozen mask / quantiser alpha / quantiser-internal / "
-        "combiner alpha) is read structurally from the module tree (masker and quantiser types), not from the nas/net lists under test",
+        "combiner alpha), its owning layers and its owning quantiser are read structurally from the module tree (masker and "
+        "quantiser types), not from the nas/net lists under test",
         "'receives a gradient' = .grad is not None and not identically zero after backward of (output^2).mean() + model.cost in "
         "training mode with all grads cleared before; inputs and weights are seeded random (generic)",
         "the sampler of a quantiser/combiner is classified by behaviour (theta_alpha untouched = none, depends on the random "
@@ -545,6 +767,11 @@ def run(tier: str, seed: int, replay=None) -> int:
         "flag are read from the public attributes",
         "quantisers the forward pass never executes or that have a single alternative (dummy quantisers) may be skipped by "
         "update_softmax_options; for them only 'unspecified options do not change' is required",
+        "per-layer state is produced through the layers' public switches (PIT layer.train_features/train_rf/train_dilation/"
+        "discrete_cost, MPS quantiser.update_softmax_options, SuperNetCombiner.softmax_temperature/hard_softmax/train_selection and "
+        "the SuperNetModule constructor options); MPS has no per-layer trainability switch, PIT no sampling options",
+        "quick tier: the heterogeneous PIT machine is explored for two disjoint pairs of switches (rotating with the seed: seeds "
+        "0,1,2 cover all six pairs), the heterogeneous MPS machine without the disable option; thorough: all four switches / options",
         "eval-mode forward, export(), summary() and optimiser steps are not part of this property's alphabet (C10/C17/C18)",
     ]
     execute = _env()
@@ -557,87 +784,139 @@ def run(tier: str, seed: int, replay=None) -> int:
 
     rng = random.Random(seed)
     scen: List[Dict[str, Any]] = []
-    sfx = "quick" if tier == "quick" else "thorough"
     maxlen = 24 if tier == "quick" else 40
-    variants = {"pit": ["tcn"], "mps": ["layer", "channel"], "sn": ["std"]} if tier == "quick" else \
-               {"pit": ["tcn", "cnn2d", "tcn_foldbn"], "mps": ["layer", "channel", "channel0"], "sn": ["std"]}
-    cov = {"pit": ["NasControlMC!SetFlag", "NasControlMC!Step"], "mps": ["NasControlMC!Upd", "NasControlMC!Step"],
-           "sn": ["NasControlMC!Upd", "NasControlMC!Sel", "NasControlMC!Step"]}
+    configs = _graph_configs(tier, seed)
+    sanity = ["NasControlMC_pit_pinned", "NasControlMC_mps_pinned_kept", "NasControlMC_snh_bcast1"]
+    if tier != "quick":
+        sanity += ["NasControlMC_pit_pinned_grad", "NasControlMC_mps_pinned", "NasControlMC_mpsh_bcast1",
+                   "NasControlMC_snh_homog", "NasControlMC_pith_homog"]
+
+    # 1. design level (all TLC runs side by side) + dumps
+    tlc.scratch()
+    dots = {cfg: tempfile.mktemp(prefix=f"c11-{cfg}-", suffix=".dot", dir=tlc.scratch()) for _, cfg, _, _, _ in configs}
+
+    def design(job):
+        cfg, cov = job
+        if cov is None:     # sanity (non-vacuity): literal model of the pinned code / broadcast-from-first-block variant /
+            return R.design("NasControlMC", cfg, expect_ok=False, workers=2)    # "never heterogeneous" must FAIL
+        return R.design("NasControlMC", cfg, dump_dot=dots[cfg], coverage=True,
+                        require_cov=[f"NasControlMC!{a}" for a in cov], workers=2)
+
+    jobs = [(cfg, cov) for _, cfg, _, _, cov in configs] + [(c, None) for c in sanity]
+    with ThreadPoolExecutor(max_workers=5) as ex:
+        results = list(ex.map(design, jobs))
     edges_total = 0
     graph_info = {}
-    # 1. design level + dump
-    for kind in ("pit", "mps", "sn"):
-        dot = tempfile.mktemp(prefix=f"c11-{kind}-", suffix=".dot", dir=tlc.scratch())
-        res = R.design("NasControlMC", f"NasControlMC_{kind}_{sfx}", dump_dot=dot, coverage=True,
-                       require_cov=cov[kind], workers=4)
-        nodes, edges, init = tlc.parse_dot(dot)
+    # 2. spec -> code: walks covering every edge, on every model variant of the configuration
+    for (kind, cfg, hetero, variants, _), res in zip(configs, results):
+        nodes, edges, init = tlc.parse_dot(dots[cfg])
         if len(nodes) != res.distinct or not init:
-            raise MachineryError(f"dump of {kind}: {len(nodes)} states, TLC reported {res.distinct}")
+            raise MachineryError(f"dump of {cfg}: {len(nodes)} states, TLC reported {res.distinct}")
         # canonical order (TLC's node ids and dump order vary from run to run): the walks depend on `seed` only
         cid = {n: canon(st) for n, st in nodes.items()}
         nodes = {cid[n]: st for n, st in nodes.items()}
         edges = sorted((cid[s], cid[d], lab) for s, d, lab in edges)
         init = sorted(cid[n] for n in init)
         if len(nodes) != res.distinct:
-            raise MachineryError(f"dump of {kind}: states are not distinguished by their canonical form")
-        calls = [_parse_label(lab) for _, _, lab in edges]
-        graph_info[kind] = {"states": len(nodes), "edges": len(edges), "initial": len(init)}
-        # 2. spec -> code: walks covering every edge, on every model variant of the kind
-        for variant in variants[kind]:
+            raise MachineryError(f"dump of {cfg}: states are not distinguished by their canonical form")
+        graph_info[cfg] = {"states": len(nodes), "edges": len(edges), "initial": len(init), "models": variants}
+        for variant in variants:
+            hmap = HMAP[(kind, variant)] if hetero else None
+            calls = [_parse_label(lab, hmap) for _, _, lab in edges]
             walks = _covering_walks(nodes, edges, init, maxlen, random.Random(seed * 7919 + len(scen)))
             covered = set()
             for start, walk in walks:
                 covered.update(walk)
-                scen.append({"kind": kind, "variant": variant, "init": _init_args(kind, nodes[start]), "wseed": seed,
-                             "acts": [calls[k] for k in walk],
-                             "mc": [_mc_state(kind, nodes[edges[k][1]]) for k in walk], "src": "graph"})
+                scen.append({"kind": kind, "variant": variant, "init": _init_args(kind, nodes[start], hetero),
+                             "wseed": seed, "acts": [calls[k] for k in walk], "hetero": hetero,
+                             "mc": [_mc_state(nodes[edges[k][1]], hetero) for k in walk], "src": cfg})
             if len(covered) != len(edges):
-                raise MachineryError(f"{kind}/{variant}: walks cover {len(covered)} of {len(edges)} edges")
+                raise MachineryError(f"{cfg}/{variant}: walks cover {len(covered)} of {len(edges)} edges")
             edges_total += len(edges)
-    # sanity (non-vacuity): the literal model of the pinned code violates the invariants / action property
-    R.design("NasControlMC", "NasControlMC_pit_pinned", expect_ok=False, workers=2)
-    R.design("NasControlMC", "NasControlMC_pit_pinned_grad", expect_ok=False, workers=2)
-    R.design("NasControlMC", "NasControlMC_mps_pinned", expect_ok=False, workers=2)
-    R.design("NasControlMC", "NasControlMC_mps_pinned_kept", expect_ok=False, workers=2)
 
-    # 3. code -> spec: random sequences
+    # 3. code -> spec: random sequences (model-level and per-layer calls mixed)
     n_rand = 40 if tier == "quick" else 700
     rl = 14 if tier == "quick" else 30
     rvars = {"pit": ["tcn", "cnn2d"], "mps": ["layer", "channel", "channel0"], "sn": ["std"]}
     if tier != "quick":
         rvars["pit"] += ["tcn_foldbn", "tcresnet14"]
         rvars["mps"] += ["simplenn2d:channel"]
+    metas = {(k, v): execute.meta(k, v) for k in rvars for v in rvars[k]}
     for kind in ("pit", "mps", "sn"):
         for i in range(n_rand):
             v = rvars[kind][i % len(rvars[kind])]
             n_here = rl if v not in ("tcresnet14",) else 10
             if v in ("tcresnet14", "simplenn2d:channel") and i >= 60:
                 v = rvars[kind][i % 2]
-            scen.append(_random_scenario(kind, v, rng, n_here))
+            scen.append(_random_scenario(kind, v, rng, n_here, metas[(kind, v)]))
+
+    probes = _pairwise_probes(metas)
+    scen += probes
 
     # interleave the kinds (the first reported violations then show every kind of model)
     by_kind = {k: [s for s in scen if s["kind"] == k] for k in ("pit", "mps", "sn")}
     scen = [by_kind[k][i] for i in range(max(map(len, by_kind.values()))) for k in ("pit", "mps", "sn")
             if i < len(by_kind[k])]
-    traces = [execute(sc) for sc in scen]
-    n_graph = sum(1 for s in scen if s["src"] == "graph")
+    # execute in parts; a single background thread lets TLC validate finished parts meanwhile
+    traces: List[Dict[str, Any]] = []
+    nparts = 4 if tier == "quick" else 12
+    step = (len(scen) + nparts - 1) // nparts
+    with ThreadPoolExecutor(max_workers=1) as vex:
+        futs = []
+        for lo in range(0, len(scen), step):
+            part_s = scen[lo:lo + step]
+            part_t = [execute(sc) for sc in part_s]
+            traces += part_t
+            futs.append(vex.submit(R.validate, "NasControlTrace", "NasControlTrace", part_t, part_s,
+                                   nontrivial=lambda s: len(s["acts"]) > 0, key=_key,
+                                   label=f"graph walks + random sequences, part {len(futs) + 1}", chunk=1000, workers=8))
+        for f in futs:
+            f.result()
+    n_graph = sum(1 for s in scen if s["src"] not in ("random", "probe"))
+    n_het = sum(1 for s in scen if s["hetero"])
+    perlayer = ("lflag", "lupd", "lsel")
     R.sample({"scenario": {k: scen[0][k] for k in ("kind", "variant", "init")} | {"acts": scen[0]["acts"][:6]},
               "observed_after_first_call": {"p": traces[0]["ev"][0]["obs"]["p"][:6], "flags": traces[0]["ev"][0]["obs"]["flags"]}})
     j = next(i for i, s in enumerate(scen) if s["kind"] == "mps")
     R.sample({"scenario": {k: scen[j][k] for k in ("kind", "variant", "init")} | {"acts": scen[j]["acts"][:4]},
               "observed_quantisers_after_first_call": traces[j]["ev"][0]["obs"]["q"][:4]})
+    j = next(i for i, s in enumerate(scen) if s["kind"] == "sn" and s["hetero"] and isinstance(s["init"]["hard"], list)
+             and s["init"]["hard"][0] != s["init"]["hard"][1])
+    R.sample({"scenario": {k: scen[j][k] for k in ("kind", "variant", "init")} | {"acts": scen[j]["acts"][:4]},
+              "observed_combiners_at_construction": traces[j]["init"]["q"],
+              "observed_combiners_after_first_call": traces[j]["ev"][0]["obs"]["q"]})
     R.extra.update({"graphs": graph_info, "edges_replayed_on_real_models": edges_total,
-                    "graph_walks": n_graph, "random_sequences": len(scen) - n_graph,
+                    "graph_walks": n_graph, "graph_walks_heterogeneous": n_het, "random_sequences": sum(1 for s in scen if s["src"] == "random"),
+                    "pairwise_heterogeneity_probes": len(probes),
                     "calls_executed": sum(len(s["acts"]) for s in scen),
+                    "per_layer_calls_executed": sum(1 for s in scen for a in s["acts"] if a["a"] in perlayer),
+                    "model_level_calls_in_heterogeneous_state": _count_hetero_calls(traces),
                     "fwdbwd_executed": sum(1 for s in scen for a in s["acts"] if a["a"] == "fwdbwd"),
                     "fwdbwd_without_any_trainable_parameter": sum(1 for t in traces for e in t["ev"] if e["obs"]["bwd"] == "noloss"),
                     "fwdbwd_backward_raised_stale_theta_graph": sum(1 for t in traces for e in t["ev"] if e["obs"]["bwd"] == "error")})
-    R.validate("NasControlTrace", "NasControlTrace", traces, scen, nontrivial=lambda s: len(s["acts"]) > 0,
-               key=_key, label="graph walks + random sequences", chunk=400, workers=8)
     R.evaluations = sum(len(s["acts"]) for s in scen)      # every executed call is validated stepwise by TLC
     R.exhaustive = True
     return R.finish()
 
 
+def _count_hetero_calls(traces) -> int:
+    """model-level calls issued while the per-layer state differed (same class, different value / blocks with different
+    temperature or hard flag): what a 'broadcast from one layer' defect needs in order to show."""
+    n = 0
+    for t in traces:
+        prev = t["init"]
+        for e in t["ev"]:
+            if e["act"]["a"] in ("train", "flag", "sel", "upd"):
+                by_cls: Dict[str, set] = {}
+                for x in prev["p"]:
+                    by_cls.setdefault(x["cls"], set()).add(x["rg"])
+                live = [(q["temp"], q["hard"]) for q in prev["q"] if q["live"]]
+                mixed = any(len(v) > 1 for c, v in by_cls.items() if c in ("alpha", "alphaS", "beta", "gamma", "dc", "snalpha"))
+                if mixed or len(set(live)) > 1:
+                    n += 1
+            prev = e["obs"]
+    return n
+
+
 def _key(sc):
-    return {k: sc[k] for k in ("kind", "variant", "init", "wseed", "acts")}
+    return {k: sc.get(k) for k in ("kind", "variant", "init", "wseed", "acts", "hetero")}
